@@ -30,7 +30,7 @@ type syncBuf struct {
 func (s *syncBuf) Write(p []byte) (int, error) {
 	s.mu.Lock()
 	defer s.mu.Unlock()
-	if s.b.Len() < 1<<16 {
+	if s.b.Len() < 1<<18 {
 		s.b.Write(p)
 	}
 	return len(p), nil
@@ -60,7 +60,9 @@ func cpuSeconds(pid int) float64 {
 func runAlone(self string, raw json.RawMessage, memKB int64, cpuBudget float64, wallCap time.Duration) kit.PoolResult {
 	sh := fmt.Sprintf("ulimit -v %d; exec \"$0\" \"$@\"", memKB)
 	cmd := exec.Command("sh", "-c", sh, self, "worker")
-	cmd.Env = append(os.Environ(), "GOTRACEBACK=single", "GOMAXPROCS=2")
+	// crash: on SIGQUIT the runtime relays the signal to every thread, so the stack of the evaluating goroutine is
+	// printed even when it is running on another thread than the one that took the signal
+	cmd.Env = append(os.Environ(), "GOTRACEBACK=crash", "GOMAXPROCS=2")
 	stdin, err := cmd.StdinPipe()
 	if err != nil {
 		kit.Fatalf("alone: %v", err)
@@ -126,7 +128,7 @@ func runAlone(self string, raw json.RawMessage, memKB int64, cpuBudget float64, 
 			cpu := cpuSeconds(cmd.Process.Pid)
 			if (cpu >= 0 && cpu > cpuBudget) || time.Since(t0) > wallCap {
 				_ = cmd.Process.Signal(syscall.SIGQUIT)
-				time.Sleep(1500 * time.Millisecond)
+				time.Sleep(2500 * time.Millisecond)
 				stdin.Close()
 				_ = cmd.Process.Kill()
 				_ = cmd.Wait()
